@@ -2,7 +2,7 @@
 from checks_path import *  # noqa
 from seq_common import run_seq, replay_seq
 from store_common import run_store, run_store_nat
-from structs_common import run_structs, replay_structs
+from structs_common import run_structs, replay_structs, replay_structs_oracle
 
 PROPERTY = 'C07'
 GEN = ['LogicIntern', 'LogicStructs']
@@ -35,6 +35,8 @@ def search(ctx, reason):
     return None
 
 def replay(ctx, path):
-    if path.endswith('.trace'):
+    if open(path).readline().startswith('structs-oracle'):
+        return replay_structs_oracle(ctx, path)
+    if path.endswith('.trace') or open(path).readline().startswith('reset'):
         return replay_structs(ctx, path)
     return replay_seq(ctx, path)
